@@ -3,6 +3,7 @@
 #include <pika/runtime/thread_pool_helpers.hpp>
 #include <pika/executors/std_thread_scheduler.hpp>
 #include <pika/synchronization/event.hpp>
+#include <pika/thread.hpp>
 #include <pika/threading_base/thread_num_tss.hpp>
 #include <string>
 #include <thread>
@@ -197,6 +198,51 @@ static void hint_second_pool_prog()
     pmc_outcome("h=%d", h);
 }
 
+// yield_to across pools: a task on the default pool hands its time slice to a task of pool "aux" that is
+// pending in an aux queue; that task must still run every phase on a worker of "aux"
+static void yield_to_prog()
+{
+    static Where ph[8];
+    for (auto& x : ph) x = Where{};
+    static int nph, finished, target_ready;
+    static pika::thread::id target_id;
+    nph = finished = target_ready = 0;
+    target_id = pika::thread::id{};
+    int nyield_to = 1 + pmc_choose(2, 0);
+    rt::config c;
+    c.workers = 3;
+    c.rp_callback = &two_pools;
+    rt::start(c);
+    auto sd = ex::thread_pool_scheduler{&pika::resource::get_thread_pool("default")};
+    auto sa = ex::thread_pool_scheduler{&pika::resource::get_thread_pool("aux")};
+    ex::execute(sa, [&] {
+        rt::watch_self("target");
+        target_id = pika::this_thread::get_id();
+        target_ready = 1;
+        for (int i = 0; i < 4; ++i)
+        {
+            ph[nph] = here();
+            // checked at once: on the unchanged tree the run ends in a known finding (the target is
+            // enqueued a second time and cleaned up twice after it terminated) before the final checks
+            if (ph[nph].pool != "aux") pmc_fail("wrong-pool", "phase %d of a task of pool 'aux' that another pool's task yielded to ran on pool '%s'", nph, ph[nph].pool.c_str());
+            ++nph;
+            pika::this_thread::yield();    // pending in an aux queue between the phases
+        }
+        ++finished;
+    });
+    ex::execute(sd, [&, nyield_to] {
+        rt::watch_self("yielder");
+        int guard = 0;
+        while (!target_ready && ++guard < 300) pika::this_thread::yield();
+        for (int i = 0; i < nyield_to; ++i) pika::this_thread::yield_to(target_id);
+        ++finished;
+    });
+    rt::stop();
+    PMC_ASSERT(finished == 2 && nph == 4, "not-run", "target ran %d of 4 phases, %d of 2 tasks finished", nph, finished);
+    for (int i = 0; i < nph; ++i) expect_on(ph[i], "aux", "a phase of a task of pool 'aux' that another pool's task yielded to");
+    pmc_outcome("yield_to=%d", nyield_to);
+}
+
 // std_thread_scheduler: a fresh non-pika thread
 static void std_thread_prog()
 {
@@ -224,10 +270,11 @@ int main(int argc, char** argv)
     static const char* sites = "set_thread_state|set_active_state|schedule_thread|create_thread|thread_pool_scheduler|schedule_from|scheduling_loop|select_active_pu";
     static const char* focus = "F-site (rmw, cas): set_thread_state/set_active_state, schedule_thread/create_thread of the schedulers, thread_pool_scheduler, schedule_from, scheduling_loop; F-addr: hinted task / waker state words and the event";
     static const pmc_spec specs[] = {
-        {"two_pools", pool_prog, 1, 2, 0.3, 0.3, 1, focus, sites, "rc"},
+        {"two_pools", pool_prog, 1, 2, 0.25, 0.25, 1, focus, sites, "rc"},
         {"hint_static", hint_prog<0>, 1, 2, 0.2, 0.2, 1, focus, sites, "rc"},
         {"hint_static_priority", hint_prog<1>, 1, 2, 0.2, 0.15, 1, focus, sites, "rc"},
         {"std_thread_scheduler", std_thread_prog, 1, 2, 0.1, 0.1, 1, focus, sites, "rc"},
+        {"yield_to_other_pool", yield_to_prog, 0, 1, 0.05, 0.05, 0, focus, sites, "rc"},
         {"hint_second_pool_static", hint_second_pool_prog<0>, 1, 2, 0.15, 0.15, 1, focus, sites, "rc"},
         {"hint_second_pool_static_priority", hint_second_pool_prog<1>, 0, 1, 0.05, 0.1, 1, focus, sites, "rc"},
     };
